@@ -7,6 +7,16 @@ package main
 //                                                              mode c: one message, proto.Marshal -> proto.Unmarshal ->
 //                                                              encoder -> strings.Join("\n") as rawpanel-lib-c/main.go:43
 //   dout.lines <n> <hexline>* | <msgs> ; <oracle>              RawPanelASCIIstringsToOutboundMessages(lines)
+//   eout.msgsx d <msgs> X n (mi ei ts absPrev speedPrev)* F k (mi fault)*   | as eout.msgs: the messages with the fields the ASCII
+//                                                              form does not carry set (HWCEvent.Timestamp, AbsoluteEvent.PrevValue,
+//                                                              SpeedEvent.PrevValue of event ei of message mi; BusStatus.Fault of message mi)
+//   eout.seq k <msgs>*        | 2k line lists ; <oracle>       k calls; k snapshots at return time, then the k kept slices re-read after the last call
+//   eout.par k <msgs>*        | the same, calls of even / odd index in two goroutines (convseq.go)
+//   eout.reuse 2 <msgs> <msgs>| 2 line lists ; <oracle>        the second call converts the message objects of the first, overwritten in place
+//   eout.fields               | the field names Message.field of the proto definitions reachable from OutboundMessage
+//   dout.seq k (<n> <hexline>*)* | 2k <msgs> ; <oracle>        k calls of the decoder, results kept and re-read after the last call
+//   dout.par as dout.seq      | the same, calls of even / odd index in two goroutines
+//   dout.ctx <n> <hexline>*   | <msgs> ; <oracle> ( L <hexline> <msgs> )*   + what the decoder returns for each distinct line alone
 //   dout.rx <regexvar>        | <hex of Regexp.String()>       the library's own compiled regex object (go:linkname)
 //   dout.match <regexvar> <hexline> | - (no match) or M <hex submatch>*   FindStringSubmatch of that object
 // Message token format: see lean/RawPanelVerif/Driver/ConvOut.lean.  Oracle entries are values of strconv /
@@ -385,17 +395,90 @@ func (r *outTokReader) msg() *rwp.OutboundMessage {
 	return m
 }
 
-func parseOutMsgs(toks []string) []*rwp.OutboundMessage {
-	r := &outTokReader{t: toks}
+func (r *outTokReader) msgs() []*rwp.OutboundMessage {
 	n := r.n()
 	ms := make([]*rwp.OutboundMessage, 0, n)
 	for i := 0; i < n; i++ {
 		ms = append(ms, r.msg())
 	}
+	return ms
+}
+
+func parseOutMsgs(toks []string) []*rwp.OutboundMessage {
+	r := &outTokReader{t: toks}
+	ms := r.msgs()
 	if r.i != len(toks) {
 		panic("trailing tokens in message list")
 	}
 	return ms
+}
+
+// `k <msgs>*`
+func parseOutMsgsLists(toks []string) [][]*rwp.OutboundMessage {
+	r := &outTokReader{t: toks}
+	k := r.n()
+	lists := make([][]*rwp.OutboundMessage, k)
+	for i := range lists {
+		lists[i] = r.msgs()
+	}
+	if r.i != len(toks) {
+		panic("trailing tokens in message lists")
+	}
+	return lists
+}
+
+// the fields the ASCII form does not carry: `X n (mi ei ts absPrev speedPrev)* F k (mi fault)*`
+func (r *outTokReader) extras(ms []*rwp.OutboundMessage) {
+	if r.next() != "X" {
+		panic("expected X")
+	}
+	for n := r.n(); n > 0; n-- {
+		mi, ei := r.n(), r.n()
+		ts, ap, sp := r.u32(), r.u32(), r.i32()
+		e := ms[mi].Events[ei]
+		e.Timestamp = ts
+		if e.Absolute != nil {
+			e.Absolute.PrevValue = ap
+		}
+		if e.Speed != nil {
+			e.Speed.PrevValue = sp
+		}
+	}
+	if r.next() != "F" {
+		panic("expected F")
+	}
+	for n := r.n(); n > 0; n-- {
+		mi := r.n()
+		ms[mi].BusStatus = &rwp.BusStatus{Fault: r.b()}
+	}
+}
+
+func extraTokens(ms []*rwp.OutboundMessage) []string {
+	x, f := []string{}, []string{}
+	nx, nf := 0, 0
+	for mi, m := range ms {
+		if m == nil {
+			continue
+		}
+		for ei, e := range m.Events {
+			ap, sp := uint32(0), int32(0)
+			if e.Absolute != nil {
+				ap = e.Absolute.PrevValue
+			}
+			if e.Speed != nil {
+				sp = e.Speed.PrevValue
+			}
+			if e.Timestamp != 0 || ap != 0 || sp != 0 {
+				x = append(x, fmt.Sprint(mi), fmt.Sprint(ei), fmt.Sprint(e.Timestamp), fmt.Sprint(ap), fmt.Sprint(sp))
+				nx++
+			}
+		}
+		if m.BusStatus != nil {
+			f = append(f, fmt.Sprint(mi), b01(m.BusStatus.Fault))
+			nf++
+		}
+	}
+	return append(append(append([]string{"X", fmt.Sprint(nx)}, x...), "F", fmt.Sprint(nf)), f...)
 }
 
 // ---------------------------------------------------------------------------------------------
@@ -551,6 +634,110 @@ func (e *convOutExec) exec1(cmd string, a []string) string {
 			res = p
 		}
 		return withOracle(res, or)
+	case "eout.msgsx":
+		if a[0] != "d" {
+			panic("eout.msgsx: mode d only")
+		}
+		r := &outTokReader{t: a[1:]}
+		ms := r.msgs()
+		r.extras(ms)
+		if r.i != len(r.t) {
+			panic("trailing tokens")
+		}
+		or := encOracle(ms)
+		res := ""
+		if p := guarded(func() { res = hexLineList(helpers.OutboundMessagesToRawPanelASCIIstrings(ms)) }); p != "" {
+			res = p
+		}
+		return withOracle(res, or)
+	case "eout.seq", "eout.par", "eout.reuse":
+		lists := parseOutMsgsLists(a)
+		var all []*rwp.OutboundMessage
+		for _, l := range lists {
+			all = append(all, l...)
+		}
+		or := encOracle(all)
+		res := ""
+		p := guarded(func() {
+			held := make([][]string, len(lists))
+			call := func(i int) { held[i] = helpers.OutboundMessagesToRawPanelASCIIstrings(lists[i]) }
+			render := func(i int) string { return hexLineList(held[i]) }
+			switch cmd {
+			case "eout.seq":
+				res = strings.Join(runSeq(len(lists), call, render), " ")
+			case "eout.par":
+				res = strings.Join(runPar(len(lists), call, render), " ")
+			default:
+				if len(lists) != 2 {
+					panic("eout.reuse takes two message lists")
+				}
+				r1 := hexLineList(helpers.OutboundMessagesToRawPanelASCIIstrings(lists[0]))
+				second := reuseObjects(lists[0], lists[1])
+				res = r1 + " " + hexLineList(helpers.OutboundMessagesToRawPanelASCIIstrings(second))
+			}
+		})
+		if p != "" {
+			res = p
+		}
+		return withOracle(res, or)
+	case "eout.fields":
+		return strings.Join(protoFieldNames((&rwp.OutboundMessage{}).ProtoReflect().Descriptor()), " ")
+	case "dout.seq", "dout.par":
+		r := &outTokReader{t: a}
+		k := r.n()
+		batches := make([][]string, k)
+		var all []string
+		for b := range batches {
+			for n := r.n(); n > 0; n-- {
+				batches[b] = append(batches[b], r.str())
+			}
+			all = append(all, batches[b]...)
+		}
+		or := decOracle(all)
+		res := ""
+		p := guarded(func() {
+			held := make([][]*rwp.OutboundMessage, k)
+			call := func(i int) {
+				held[i] = helpers.RawPanelASCIIstringsToOutboundMessages(append([]string{}, batches[i]...))
+			}
+			render := func(i int) string { return strings.Join(printOutMsgs(held[i]), " ") }
+			if cmd == "dout.par" {
+				res = strings.Join(runPar(k, call, render), " ")
+			} else {
+				res = strings.Join(runSeq(k, call, render), " ")
+			}
+		})
+		if p != "" {
+			res = p
+		}
+		return withOracle(res, or)
+	case "dout.ctx":
+		n, _ := strconv.Atoi(a[0])
+		lines := make([]string, n)
+		for i := 0; i < n; i++ {
+			lines[i] = string(unhx(a[1+i]))
+		}
+		or := decOracle(lines)
+		res := ""
+		p := guarded(func() {
+			res = strings.Join(printOutMsgs(helpers.RawPanelASCIIstringsToOutboundMessages(append([]string{}, lines...))), " ")
+			seen := map[string]bool{}
+			for _, l := range lines {
+				if seen[l] {
+					continue
+				}
+				seen[l] = true
+				or = append(or, "L", hs(l))
+				or = append(or, printOutMsgs(helpers.RawPanelASCIIstringsToOutboundMessages([]string{l}))...)
+			}
+		})
+		if p != "" {
+			res = p
+		}
+		if len(or) == 0 {
+			return res
+		}
+		return res + " ; " + strings.Join(or, " ")
 	case "dout.rx": // source text of the REAL compiled regular expression (reached by go:linkname, rxlink.go)
 		rx := libRegex(a[0])
 		if rx == nil {
@@ -583,12 +770,42 @@ func outEmitMsgs(mode string, ms ...*rwp.OutboundMessage) {
 	emitS("eout.msgs", append([]string{mode}, printOutMsgs(ms)...))
 }
 
-func outEmitLines(lines ...string) {
+func outEmitLines(lines ...string) { outEmitLinesAs("dout.lines", lines...) }
+
+func outEmitLinesAs(cmd string, lines ...string) {
 	a := []string{fmt.Sprint(len(lines))}
 	for _, l := range lines {
 		a = append(a, hs(l))
 	}
-	emitS("dout.lines", a)
+	emitS(cmd, a)
+}
+
+// dout.seq
+func outEmitBatches(batches ...[]string) { outEmitBatchesAs("dout.seq", batches...) }
+
+func outEmitBatchesAs(cmd string, batches ...[]string) {
+	a := []string{fmt.Sprint(len(batches))}
+	for _, b := range batches {
+		a = append(a, fmt.Sprint(len(b)))
+		for _, l := range b {
+			a = append(a, hs(l))
+		}
+	}
+	emitS(cmd, a)
+}
+
+// eout.seq / eout.par / eout.reuse
+func outEmitLists(cmd string, lists ...[]*rwp.OutboundMessage) {
+	a := []string{fmt.Sprint(len(lists))}
+	for _, ms := range lists {
+		a = append(a, printOutMsgs(ms)...)
+	}
+	emitS(cmd, a)
+}
+
+// eout.msgsx: the messages with their non-carried fields
+func outEmitMsgsX(ms ...*rwp.OutboundMessage) {
+	emitS("eout.msgsx", append(append([]string{"d"}, printOutMsgs(ms)...), extraTokens(ms)...))
 }
 
 // ---------------------------------------------------------------------------------------------
@@ -1083,6 +1300,167 @@ func genC03(r *Rng, n int, tier string) {
 			outEmitMsgs("d", randOutMsg(r, 40, false, true))
 		}
 	}
+	// scenario classes (after the random stream, so that the records above keep their seeds)
+	scale := 1
+	if tier == "thorough" {
+		scale = 10
+	}
+	emitS("eout.fields", nil)
+	nonCarriedScenarios(r, 400*scale)
+	repeatScenariosOut(r, 60*scale)
+	seqScenariosOut(r, 150*scale)
+	longScenariosOut(r)
+}
+
+// ---------------------------------------------------------------------------------------------
+// C03 scenario classes
+// ---------------------------------------------------------------------------------------------
+
+func cloneOut(m *rwp.OutboundMessage) *rwp.OutboundMessage { return proto.Clone(m).(*rwp.OutboundMessage) }
+
+// (d) the fields the ASCII form does not carry (HWCEvent.Timestamp, AbsoluteEvent.PrevValue, SpeedEvent.PrevValue,
+// BusStatus), set to arbitrary values AND to values coinciding with carried ones (PrevValue == Value, Timestamp == id ...)
+func setNonCarried(r *Rng, m *rwp.OutboundMessage, coincide bool) {
+	for _, e := range m.Events {
+		pick := func(same uint32) uint32 {
+			switch {
+			case coincide && r.Chance(60):
+				return same
+			case r.Chance(20):
+				return 0
+			}
+			return r.u32()
+		}
+		e.Timestamp = pick(e.HWCID)
+		if e.Absolute != nil {
+			e.Absolute.PrevValue = pick(e.Absolute.Value)
+		}
+		if e.Speed != nil {
+			e.Speed.PrevValue = int32(pick(uint32(e.Speed.Value)))
+		}
+	}
+	if r.Chance(50) {
+		m.BusStatus = &rwp.BusStatus{Fault: r.Bool()}
+	}
+}
+
+func nonCarriedScenarios(r *Rng, n int) {
+	// every event kind with the previous value equal to / different from the value, at the boundaries
+	for _, v := range u32Pool {
+		for _, pv := range []uint32{v, v + 1, 0, 4294967295} {
+			outEmitMsgsX(&rwp.OutboundMessage{Events: []*rwp.HWCEvent{
+				{HWCID: 40, Absolute: &rwp.AbsoluteEvent{Value: v, PrevValue: pv}},
+				{HWCID: 41, Timestamp: pv, Speed: &rwp.SpeedEvent{Value: int32(v), PrevValue: int32(pv)}},
+				{HWCID: v, Timestamp: v, Binary: &rwp.BinaryEvent{Pressed: true, Edge: 4}},
+				{HWCID: 42, Timestamp: pv, Pulsed: &rwp.PulsedEvent{Value: int32(pv)}},
+				{HWCID: 43, Timestamp: 43, RawAnalog: &rwp.RawAnalogEvent{Value: v}}}})
+		}
+	}
+	for _, f := range []bool{false, true} {
+		outEmitMsgsX(&rwp.OutboundMessage{BusStatus: &rwp.BusStatus{Fault: f}})
+		outEmitMsgsX(&rwp.OutboundMessage{FlowMessage: 1, BusStatus: &rwp.BusStatus{Fault: f}, Events: []*rwp.HWCEvent{{HWCID: 7, Binary: &rwp.BinaryEvent{Pressed: f}}}})
+	}
+	for i := 0; i < n; i++ {
+		k := r.Range(1, 3)
+		ms := []*rwp.OutboundMessage{}
+		for j := 0; j < k; j++ {
+			m := randOutMsg(r, r.Pick(10, 30, 60), true, true)
+			if len(m.Events) == 0 || r.Chance(50) {
+				for e := r.Range(1, 5); e > 0; e-- {
+					m.Events = append(m.Events, randEvent(r, true))
+				}
+			}
+			setNonCarried(r, m, i%2 == 0)
+			ms = append(ms, m)
+		}
+		outEmitMsgsX(ms...)
+	}
+}
+
+// (b) the same message / event / register more than once in one call with others in between
+func repeatScenariosOut(r *Rng, n int) {
+	for i := 0; i < n; i++ {
+		a, b := randOutMsg(r, r.Pick(10, 30, 60), true, true), randOutMsg(r, r.Pick(10, 30), true, true)
+		outEmitMsgs("d", a, b, cloneOut(a))
+		outEmitMsgs("d", a, cloneOut(a))
+		outEmitMsgs("d", a, &rwp.OutboundMessage{FlowMessage: rwp.OutboundMessage_PING}, cloneOut(a), b, cloneOut(a))
+		ea, eb := randEvent(r, true), randEvent(r, true)
+		ea.Timestamp, eb.Timestamp = 0, 0
+		if ea.Absolute != nil {
+			ea.Absolute.PrevValue = 0
+		}
+		if ea.Speed != nil {
+			ea.Speed.PrevValue = 0
+		}
+		eb.HWCID = ea.HWCID
+		ea2 := proto.Clone(ea).(*rwp.HWCEvent)
+		outEmitMsgs("d", &rwp.OutboundMessage{Events: []*rwp.HWCEvent{ea, eb, ea2}})
+		outEmitMsgs("d", &rwp.OutboundMessage{Events: []*rwp.HWCEvent{ea}}, &rwp.OutboundMessage{Events: []*rwp.HWCEvent{eb}}, &rwp.OutboundMessage{Events: []*rwp.HWCEvent{ea2}})
+		outEmitMsgs("d", &rwp.OutboundMessage{Events: []*rwp.HWCEvent{ea, ea2, proto.Clone(ea).(*rwp.HWCEvent)}})
+		ra, rb := randRegister(r, true), randRegister(r, true)
+		outEmitMsgs("d", &rwp.OutboundMessage{Registers: []*rwp.Register{ra, rb, proto.Clone(ra).(*rwp.Register)}})
+	}
+}
+
+// (a) results of earlier calls are not changed by later calls; (e) message objects converted, overwritten in place,
+// converted again
+func seqScenariosOut(r *Rng, n int) {
+	ev := func(first, k int, down bool) []*rwp.OutboundMessage {
+		ms := []*rwp.OutboundMessage{}
+		for i := 0; i < k; i++ {
+			ms = append(ms, &rwp.OutboundMessage{Events: []*rwp.HWCEvent{{HWCID: uint32(first + i), Binary: &rwp.BinaryEvent{Pressed: down}}}})
+		}
+		return ms
+	}
+	outEmitLists("eout.seq", ev(1, 8, true), ev(101, 8, false), ev(40, 3, true))
+	outEmitLists("eout.par", ev(1, 8, true), ev(101, 8, false), ev(40, 3, true), ev(201, 5, false))
+	// a statistics record refreshed in place and published again
+	s1 := &rwp.SystemStat{CPUUsage: 4, CPUTemp: 56, ExtTemp: -100, CPUVoltage: 0.85, CPUFreqCurrent: 1500000, MemTotal: 1893788, MemFree: 1637268}
+	s2 := &rwp.SystemStat{CPUUsage: 97, CPUTemp: 81.5, ExtTemp: -100, CPUVoltage: 0.85, CPUFreqCurrent: 1500000, MemTotal: 1893788, MemFree: 20480, ThrottledNow: true, Throttled: true}
+	outEmitLists("eout.reuse", []*rwp.OutboundMessage{{SysStat: s1}}, []*rwp.OutboundMessage{{SysStat: s2}})
+	for i := 0; i < n; i++ {
+		k := r.Range(2, 4)
+		lists := make([][]*rwp.OutboundMessage, k)
+		for j := range lists {
+			for q := r.Range(1, 3); q > 0; q-- {
+				lists[j] = append(lists[j], randOutMsg(r, r.Pick(10, 30, 60), true, true))
+			}
+		}
+		if r.Chance(25) {
+			lists = append(lists, lists[0])
+		}
+		if i%4 == 3 {
+			outEmitLists("eout.par", lists...)
+		} else {
+			outEmitLists("eout.seq", lists...)
+		}
+		var a, b []*rwp.OutboundMessage
+		switch r.Intn(3) {
+		case 0: // all sections in both: every sub-message object is used twice
+			a, b = []*rwp.OutboundMessage{randOutMsg(r, 100, true, true)}, []*rwp.OutboundMessage{randOutMsg(r, 100, true, true)}
+		case 1:
+			a, b = []*rwp.OutboundMessage{randOutMsg(r, 60, true, true)}, []*rwp.OutboundMessage{randOutMsg(r, 60, true, true)}
+		default:
+			a = []*rwp.OutboundMessage{randOutMsg(r, 50, true, true), randOutMsg(r, 100, true, true)}
+			b = []*rwp.OutboundMessage{randOutMsg(r, 100, true, true), randOutMsg(r, 50, true, true), randOutMsg(r, 30, true, true)}
+		}
+		outEmitLists("eout.reuse", a, b)
+	}
+}
+
+// (f) lines longer than the debug dump's patience: topology / profile payloads, long message texts and names
+func longScenariosOut(r *Rng) {
+	for _, n := range []int{201, 300, 499, 500, 501, 700, 2000, 6000} {
+		txt := strings.Repeat("abcdefghi ", n/10+1)[:n-1] + "z"
+		svg := "<svg width=\"10\" height=\"10\">\n" + strings.Repeat("<rect x=\"1\" y=\"2\" width=\"3\"/>", n/30+1) + "\n</svg>"
+		js := "{\"HWc\":[" + strings.Repeat("{\"id\":1,\"x\":10,\"y\":20,\"txt\":\"Button\"},", n/40+1) + "{}]}"
+		outEmitMsgs("d", &rwp.OutboundMessage{PanelTopology: &rwp.PanelTopology{Svgbase: svg, Json: js}})
+		outEmitMsgs("d", &rwp.OutboundMessage{BurninProfile: &rwp.BurninProfile{Json: js}}, &rwp.OutboundMessage{CalibrationProfile: &rwp.CalibrationProfile{Json: js}, DefaultCalibrationProfile: &rwp.CalibrationProfile{Json: js}})
+		outEmitMsgs("d", &rwp.OutboundMessage{Message: &rwp.Message{Message: txt}, ErrorMessage: &rwp.Message{Message: txt}})
+		outEmitMsgs("d", &rwp.OutboundMessage{PanelInfo: &rwp.PanelInfo{Name: txt, Model: txt}}, &rwp.OutboundMessage{FlowMessage: 1})
+		outEmitMsgs("d", &rwp.OutboundMessage{Connections: &rwp.Connections{Connection: []string{txt[:n/2], txt[n/2:]}}})
+		outEmitMsgs("c", &rwp.OutboundMessage{PanelTopology: &rwp.PanelTopology{Svgbase: svg, Json: js}})
+	}
 }
 
 // put a NUL byte into one string field of the message (C binding: C.CString truncation)
@@ -1208,8 +1586,11 @@ func supportLine(r *Rng) string {
 }
 
 // one well-formed line
-func grammarLine(r *Rng) string {
-	switch r.Intn(16) {
+func grammarLine(r *Rng) string { return grammarLineFam(r, r.Intn(16)) }
+
+// one well-formed line of family k (0..15)
+func grammarLineFam(r *Rng, k int) string {
+	switch k {
 	case 0:
 		return []string{"ping", "ack", "nack", "BSY", "RDY", "list"}[r.Intn(6)]
 	case 1, 2:
@@ -1452,6 +1833,163 @@ func genMatchOut(r *Rng, tier string) {
 		[]string{"A", "0", "a", "=", "#", " ", "\n", "-", "F", "S"}, []string{"A", "0", "=", "#", "\n"}, thorough, 300)
 }
 
+// ---------------------------------------------------------------------------------------------
+// C04 scenario classes
+// ---------------------------------------------------------------------------------------------
+
+var betweenLinesOut = [][]string{{"ping"}, {"list"}, {""}, {"Foo=Bar"}, {"MemA=1"}, {"map=5:1"}, {"_isSleeping=1"}, {"HWC#9=Down"}, {"pong", "BSY"}, {"Msg=hello"}}
+
+// (b) the same line more than once in one call, other lines in between
+func repeatScenariosDout(r *Rng, perFam int) {
+	for fam := 0; fam < 16; fam++ {
+		for rep := 0; rep < perFam; rep++ {
+			a, b := grammarLineFam(r, fam), grammarLineFam(r, fam)
+			x := betweenLinesOut[r.Intn(len(betweenLinesOut))]
+			y := betweenLinesOut[r.Intn(len(betweenLinesOut))]
+			outEmitLines(cat([]string{a}, x, []string{a})...)
+			outEmitLines(a, a)
+			outEmitLines(a, b, a)
+			outEmitLines(cat([]string{a}, x, []string{a}, y, []string{a})...)
+		}
+	}
+	for _, l := range nonGrammarSamples {
+		outEmitLines(l, "HWC#1=Down", l)
+	}
+}
+
+// (c) every numeric position of every line family (canonical values chosen so that a base-prefix / octal reading shows)
+var doutNumTempls = []numTempl{
+	nt("HWC#", "8", "=Down"), nt("HWC#", "10", ".", "4", "=Up"), nt("HWC#", "9", ".", "16", "=Press"), nt("HWC#", "18", ".", "8", "=Down"),
+	nt("HWC#", "8", "=Enc:", "10", ""), nt("HWC#", "10", "=Enc:", "-8", ""), nt("HWC#", "8", ".", "2", "=Speed:", "-10", ""), nt("HWC#", "9", "=Speed:", "255", ""),
+	nt("HWC#", "10", "=Abs:", "10", ""), nt("HWC#", "8", ".", "1", "=Abs:", "0", ""), nt("HWC#", "8", "=Raw:", "18", ""), nt("HWC#", "0", "=Raw:", "0", ""),
+	nt("map=", "8", ":", "10", ""), nt("map=", "10", ":", "0", ""),
+	nt("_sleepTimer=", "10", ""), nt("_heartBeatTimer=", "8", ""), nt("DimmedGain=", "10", ""), nt("_serverModeMaxClients=", "10", ""), nt("_bootsCount=", "8", ""),
+	nt("_totalUptimeMin=", "100", ""), nt("_sessionUptimeMin=", "10", ""), nt("_screenSaverOnMin=", "9", ""), nt("_bluePillReady=", "1", ""), nt("_bluePillReady=", "10", ""),
+	nt("_isSleeping=", "8", ""), nt("_isSleeping=", "0", ""),
+	nt("SysStat=CPUUsage:", "10", ":CPUFreqCurrent:", "-10", ":MemFree:", "8", ":CPUFreqMin:", "0", ":Throttled:1"),
+	nt("SysStat=MemTotal:", "100", ":MemAvailable:", "10", ":MemBuffers:", "18", ":MemCached:", "-8", ":CPUFreqMax:", "10", ""),
+	nt("MemA1=", "10", ""), nt("Mem=", "8", ""), nt("Flag#", "10", "=", "1", ""), nt("Flag#", "8", "=", "0", ""), nt("Flag#", "0", "=", "10", ""), nt("ShiftB=", "255", ""), nt("State=", "10", ""),
+}
+
+// `[-0-9]+` (the value of Enc/Abs/Speed/Raw) admits '-' anywhere; the SysStat values are free-form text read by Atoi
+func doutSigns(t numTempl) numTempl {
+	t.plus = make([]bool, len(t.nums))
+	t.minus = make([]bool, len(t.nums))
+	for i := range t.nums {
+		if strings.HasSuffix(t.parts[i], ":") {
+			t.minus[i] = true
+			if strings.HasPrefix(t.parts[0], "SysStat") {
+				t.plus[i] = true
+			}
+		}
+	}
+	return t
+}
+
+func numeralScenariosDout(r *Rng, randomN int) {
+	for _, t0 := range doutNumTempls {
+		t := doutSigns(t0)
+		outEmitLines(t.render(t.nums))
+		for _, l := range t.respelled() {
+			outEmitLines(l)
+		}
+	}
+	for _, l := range []string{"_sleepTimer=00000000000000000000004294967296", "HWC#7=Abs:000000000000000000000099999999999999999999", "map=0000000000000000000000000000000000000000000000000000000000000000000000000007:08",
+		"HWC#0000000000000000000000000000000000000000000012=Down", "Flag#000000000000000000000000000000000000000000000000000000000000017=0000000000000000000000000000000001",
+		"HWC#5=Enc:-0000000000000000000000000000000000000000008", "SysStat=MemFree:-000000000000000000000000000000010"} {
+		outEmitLines(l)
+	}
+	for i := 0; i < randomN; i++ {
+		k := r.Range(1, 4)
+		var ls []string
+		for j := 0; j < k; j++ {
+			t := doutSigns(doutNumTempls[r.Intn(len(doutNumTempls))])
+			if r.Chance(70) {
+				sp := t.respelled()
+				ls = append(ls, sp[r.Intn(len(sp))])
+			} else {
+				ls = append(ls, t.respelledAll(r))
+			}
+			if r.Chance(30) {
+				ls = append(ls, grammarLine(r))
+			}
+		}
+		outEmitLines(ls...)
+	}
+}
+
+// (g) a known key with a value outside its enumeration / a keyword with arguments that do not parse, alone and inside
+// batches directly after lines that produce a message (dout.ctx: the decoder's answer for every line alone is part of the
+// record; the batch must be the concatenation: no line may change what its neighbours denote)
+var doutEnumOutside = []string{"_panelType=Foo", "_panelType=bpi", "_panelType=BPI ", "_panelType=0", "_panelType=Physical,Touch", "EnvironmentalHealth=Weird", "EnvironmentalHealth=normal", "EnvironmentalHealth=0",
+	"EnvironmentalHealth=Blocked!", "_support=Foo", "_support=ASCII,Foo", "_support=ascii", "_support=,", "SysStat=Foo:5", "SysStat=Foo", "SysStat=UnderVoltage:2", "SysStat=Throttled:yes",
+	"_networkConfig=notjson", "_networkConfig={", "_bluePillReady=yes", "_isSleeping=true", "_sleepTimer=abc", "HWC#5=Enc", "HWC#5=Abs:-1", "HWC#5.3=Down", "HWC#5=Press:1", "map=5:", "MemA=x", "Flag#A1=5"}
+
+func enumScenariosDout(r *Rng, randomN int) {
+	producers := []string{"HWC#7=Down", "HWC#3=Enc:-2", "ping", "MemA=4", "map=5:1", "_model=SK_X", "_panelType=Touch", "EnvironmentalHealth=Safemode", "SysStat=CPUUsage:5", "_support=ASCII,Binary",
+		"HWC#7=Press", "Msg=hello", "_isSleeping=1", "list"}
+	for _, e := range doutEnumOutside {
+		outEmitLinesAs("dout.ctx", e)
+		for _, p := range producers {
+			outEmitLinesAs("dout.ctx", p, e)
+		}
+		outEmitLinesAs("dout.ctx", "HWC#7=Down", e, "HWC#7=Up")
+		outEmitLinesAs("dout.ctx", e, e, "HWC#9=Abs:100", e)
+	}
+	for i := 0; i < randomN; i++ {
+		var ls []string
+		k := r.Range(2, 6)
+		for j := 0; j < k; j++ {
+			switch {
+			case r.Chance(40):
+				ls = append(ls, doutEnumOutside[r.Intn(len(doutEnumOutside))])
+			case r.Chance(15):
+				ls = append(ls, nearMissSamples[r.Intn(len(nearMissSamples))])
+			case r.Chance(10):
+				ls = append(ls, nonGrammarLine(r))
+			default:
+				ls = append(ls, grammarLine(r))
+			}
+		}
+		outEmitLinesAs("dout.ctx", ls...)
+	}
+}
+
+// (a) what an earlier call returned is not changed by a later call
+func seqScenariosDout(r *Rng, randomN int) {
+	outEmitBatches([]string{"HWC#1=Down", "HWC#2=Down", "HWC#3=Down"}, []string{"HWC#101=Up", "HWC#102=Up", "HWC#103=Up"}, []string{"HWC#40=Press"})
+	outEmitBatches([]string{"SysStat=CPUUsage:4:CPUTemp:56.0"}, []string{"SysStat=CPUUsage:97:CPUTemp:81.5"})
+	for i := 0; i < randomN; i++ {
+		k := r.Range(2, 4)
+		batches := make([][]string, k)
+		for b := range batches {
+			for j := r.Range(1, 4); j > 0; j-- {
+				batches[b] = append(batches[b], grammarLine(r))
+			}
+		}
+		if r.Chance(30) {
+			batches = append(batches, batches[0])
+		}
+		if i%4 == 3 {
+			outEmitBatchesAs("dout.par", batches...)
+		} else {
+			outEmitBatches(batches...)
+		}
+	}
+}
+
+// (f) lines longer than the debug dump's patience
+func longScenariosDout() {
+	for _, n := range []int{201, 300, 499, 500, 501, 700, 2000, 6000} {
+		txt := strings.Repeat("abcdefghi ", n/10+1)[:n-1] + "z"
+		outEmitLines("_panelTopology_svgbase=<svg>" + txt + "</svg>")
+		outEmitLines("HWC#1=Down", "_panelTopology_HWC={\"t\":\""+txt+"\"}", "Msg="+txt, "HWC#1=Up")
+		outEmitLines("_name="+txt, "_connections="+txt[:n/2]+";"+txt[n/2:])
+		outEmitLines("unknownKeyword"+txt, "HWC#1=Down")
+		outEmitLines("Mem" + strings.ToUpper(strings.ReplaceAll(txt, " ", "9")) + "=5")
+	}
+}
+
 func genC04(r *Rng, n int, tier string) {
 	// the byte matchers of the model against the real regular expressions (bounded-exhaustive)
 	genMatchOut(r, tier)
@@ -1552,6 +2090,16 @@ func genC04(r *Rng, n int, tier string) {
 			outEmitLines(nonGrammarLine(r))
 		}
 	}
+	// scenario classes (after the random stream, so that the records above keep their seeds)
+	scale := 1
+	if tier == "thorough" {
+		scale = 10
+	}
+	repeatScenariosDout(r, 8*scale)
+	numeralScenariosDout(r, 300*scale)
+	enumScenariosDout(r, 300*scale)
+	seqScenariosDout(r, 150*scale)
+	longScenariosDout()
 }
 
 // ---------------------------------------------------------------------------------------------
@@ -1705,5 +2253,37 @@ func genC06out(r *Rng, n int, tier string) {
 			}
 			outEmitMsgs("d", ms...)
 		}
+	}
+	// call sequences on hostile inputs: results kept across calls, two goroutines, objects reused (no panic, no hang,
+	// the same results as one call after another)
+	for i := 0; i < n/60+4; i++ {
+		lists := make([][]*rwp.OutboundMessage, r.Range(2, 4))
+		for j := range lists {
+			for q := r.Range(1, 3); q > 0; q-- {
+				lists[j] = append(lists[j], randOutMsg(r, r.Pick(10, 40, 100), false, true))
+			}
+		}
+		switch i % 3 {
+		case 0:
+			outEmitLists("eout.par", lists...)
+		case 1:
+			outEmitLists("eout.seq", lists...)
+		default:
+			outEmitLists("eout.reuse", lists[0], lists[1])
+		}
+		batches := make([][]string, r.Range(2, 4))
+		for b := range batches {
+			for j := r.Range(1, 3); j > 0; j-- {
+				switch r.Intn(3) {
+				case 0:
+					batches[b] = append(batches[b], hostileLines[r.Intn(len(hostileLines))])
+				case 1:
+					batches[b] = append(batches[b], mutateLine(r, grammarLine(r)))
+				default:
+					batches[b] = append(batches[b], grammarLine(r))
+				}
+			}
+		}
+		outEmitBatches(batches...)
 	}
 }
